@@ -53,6 +53,44 @@ def table_tol():
     return _TABLE_TOL
 
 
+MEM_LAYOUTS = ['C', 'C', 'F', 'strided', 'negstride', 'offset', 'transposed', 'colstep3', 'rowpad', 'negrows', 'tstrided']
+
+
+def _mem_layout(a, layout):
+    """gen.relayout plus a few views whose strides are odd multiples / padded / partly negative (they matter for the
+    pointer arithmetic `high = data + step*N1/2` on odd sides)"""
+    a = np.ascontiguousarray(a)
+    if layout == 'colstep3':
+        big = np.full((a.shape[0], 3 * a.shape[1] + 1), 7, a.dtype)
+        v = big[:, 1::3]
+    elif layout == 'rowpad':
+        big = np.full((a.shape[0] + 1, a.shape[1] + 3), 1, a.dtype)
+        v = big[:a.shape[0], 2:2 + a.shape[1]]
+    elif layout == 'negrows':
+        big = np.zeros(a.shape, a.dtype)
+        v = big[::-1]
+    elif layout == 'tstrided':
+        big = np.full((2 * a.shape[1], 3 * a.shape[0]), 2, a.dtype)
+        v = big[::2, ::3].T
+    else:
+        return gen.relayout(a, layout)
+    v[...] = a
+    return v
+
+
+def _root_flat(v):
+    """(flat 1-D view of the buffer that owns `v`'s memory, element offset of v[0,0], element strides)"""
+    root = v
+    while isinstance(root.base, np.ndarray):
+        root = root.base
+    if not (root.flags.c_contiguous or root.flags.f_contiguous):
+        raise core.Infra('C17: root buffer not contiguous')
+    isz = v.dtype.itemsize
+    flat = np.lib.stride_tricks.as_strided(root, shape=(root.size,), strides=(isz,))
+    off = (v.__array_interface__['data'][0] - root.__array_interface__['data'][0]) // isz
+    return flat, int(off), [int(st // isz) for st in v.strides]
+
+
 def _arr(case, key='data'):
     return np.array(case[key], dtype=np.float64).astype(case['dtype']).reshape(case['shape'])
 
@@ -79,7 +117,7 @@ def _run(case):
     isfloat = dt in ('float32', 'float64')
     f = []
     req = []
-    Al = gen.relayout(A.copy(), layout)
+    Al = _mem_layout(A.copy(), layout)
     before = Al.copy()
     scale = max(1.0, float(np.abs(A.astype(np.float64)).max()))
 
@@ -166,6 +204,11 @@ def _run(case):
         rd = mh.wavelet_decenter(r, A.shape, border=border)
         # judged in evaluate(): asserted when the offsets of the embedding (from the model) are >= ncoeffs - 2,
         # the margin of theorem C17_reconstruction_centered
+        # energy of the Daubechies transform on the real code against theorem C17_tables_energy_bound (fill value 0)
+        e_in = float((np.asarray(fc0, np.float64) ** 2).sum())
+        e_out = float((np.asarray(w0, np.float64) ** 2).sum())
+        center_req[1].update(e_in=e_in, e_out=e_out,
+                             e_tol=(4 * table_tol()[ci] + (1e-4 if dt == 'float32' else 1e-12)) * e_in)
         center_req[1].update(err=float(np.abs(np.asarray(rd, np.float64) - A.astype(np.float64)).max()),
                              tol=(5e-5 * scale if dt == 'float32' else
                                   table_tol()[ci] * float(np.abs(A.astype(np.float64)).max()) + 1e-12 * scale),
@@ -198,6 +241,53 @@ def _run(case):
         if not err <= tol:
             f.append(dict(kind='property', key=f'linearity:{name}', detail=dict(err=err, tol=tol, code=code)))
         req.append((_line(name, A, pe, ci), ta, _mtol(dt, A, ta) * 8, name))
+    elif k == 'mem':
+        # the memory-level model (Model/C17Mem.lean): the whole buffer that owns the input, before and after the call,
+        # and the returned image; odd sides included (the statement is silent there: model-kind only)
+        name = case['name']
+        ci = CODES.index(case.get('code', 'D2'))
+        pe = bool(case.get('pe', True))
+        Al = _mem_layout(A.copy(), layout)
+        flat, off, strides = _root_flat(Al)
+        flat0 = flat.copy()
+        kw = dict(inline=inline)
+        if name in ('haar', 'ihaar'):
+            r = getattr(mh, name)(Al, preserve_energy=pe, **kw)
+        else:
+            r = getattr(mh, name)(Al, CODES[ci], **kw)
+        flat1 = np.asarray(flat, np.float64).copy()
+        even = all(n % 2 == 0 for n in A.shape)
+        if (not inline or not isfloat) and not np.array_equal(flat0, flat):
+            f.append(dict(kind='property' if even else 'model', key=f'input-modified:{name}', detail=dict(layout=layout)))
+        line = (f"c17 kind=mem name={name} shape={gen.enc_shape(A.shape)} strides={core.fmt_ints(strides)} off={off} "
+                f"buf={core.fmt_floats(np.asarray(flat0, np.float64))} code={ci} pe={1 if pe else 0} "
+                f"isfloat={1 if isfloat else 0} inline={1 if inline else 0}")
+        tolm = _mtol(dt, flat0, r) * 16
+        req.append((line, dict(res=np.asarray(r, np.float64).copy(), buf=flat1,
+                               aliased=bool(r is Al or np.shares_memory(r, Al))), tolm, f'mem:{name}'))
+    elif k == 'centeri':
+        # `_wavelet_center_compute` for every integer border (negative, zero, huge, out of range) and its two users
+        border = int(case['border'])
+        shape = tuple(case['shape'])
+        got = dict()
+        try:
+            ns, pos = mh.convolve._wavelet_center_compute(shape, border)
+            got['shape'] = [int(x) for x in ns]
+            got['delta'] = [int(p.start) for p in pos]
+        except ValueError:
+            got['shape'] = None
+        if got['shape'] is not None and int(np.prod(got['shape'])) <= 1 << 16:
+            fc = mh.wavelet_center(Al, border=border, cval=case.get('cval', 0.0))
+            if list(fc.shape) != got['shape']:
+                f.append(dict(kind='model', key='center-shape-vs-compute', detail=dict(got=list(fc.shape))))
+            back = mh.wavelet_decenter(fc, A.shape, border=border)
+            if back.shape != A.shape or not np.array_equal(np.asarray(back, np.float64), A.astype(np.float64)):
+                f.append(dict(kind='property', key='decenter-center', detail=dict(shape=list(back.shape), border=border)))
+            inside = np.zeros(fc.shape, bool)
+            inside[tuple(slice(d, d + e) for d, e in zip(got['delta'], A.shape))] = True
+            if not np.all(fc[~inside] == case.get('cval', 0.0)):
+                f.append(dict(kind='model', key='center-fill', detail=dict(border=border)))
+        req.append((f"c17 kind=centeri shape={core.fmt_ints(shape)} border={border}", got, None, 'centeri'))
     nontrivial = bool(np.any(A != 0))
     return f, req, nontrivial
 
@@ -235,6 +325,35 @@ def evaluate(cases):
                     if c['_margin'] and not got['err'] <= got['tol']:
                         f.append(dict(kind='property', key=f"daubechies-reconstruction:{got['code']}",
                                       detail=dict(err=got['err'], tol=got['tol'], border=got['border'], delta=delta)))
+                    # the proved energy bound (C17_tables_energy_bound: the centred image vanishes in its first
+                    # ncoeffs-2 rows and columns) holds on the real code; the statement names only the Haar energy,
+                    # so a failure is a broken correspondence, not a property violation
+                    if c['_margin'] and not abs(got['e_out'] - 4 * got['e_in']) <= got['e_tol']:
+                        f.append(dict(kind='model', key=f"daubechies-energy:{got['code']}",
+                                      detail=dict(e_in=got['e_in'], e_out=got['e_out'], tol=got['e_tol'])))
+                continue
+            if key == 'centeri':
+                want = core.ints(d['nshape']) if d['nshape'] != 'none' else None
+                wantd = core.ints(d['delta']) if d['delta'] != 'none' else None
+                if want != got['shape'] or (want is not None and wantd != got['delta']):
+                    f.append(dict(kind='model', key='centeri', detail=dict(got=got, model=dict(shape=want, delta=wantd))))
+                elif want is not None and any(n & (n - 1) for n in got['shape']):
+                    f.append(dict(kind='property', key='center-not-power-of-two', detail=dict(got=got['shape'])))
+                continue
+            if key.startswith('mem:'):
+                mres, mbuf = core.floats(d['model']), core.floats(d['buf'])
+                inp = d.get('target')
+                for what, mv, gv in (('result', mres, got['res'].ravel()), ('buffer', mbuf, got['buf'].ravel())):
+                    if mv.size != gv.size:
+                        raise core.Infra('size mismatch')
+                    bad = np.nonzero(~(np.abs(gv - mv) <= tol))[0]
+                    if len(bad) and not any(x['kind'] == 'property' for x in f):
+                        i = int(bad[0])
+                        f.append(dict(kind='model', key=f'{key}:{what}:{"float32" if c["dtype"] == "float32" else "f64"}',
+                                      detail=dict(index=i, got=float(gv[i]), model=float(mv[i]), nbad=int(len(bad)), tol=tol)))
+                        break
+                if inp is not None and (inp == 'input') != got['aliased']:
+                    f.append(dict(kind='model', key=f"inline:{key[4:]}-buffer", detail=dict(real=got['aliased'], model=inp)))
                 continue
             if key.startswith('wrap:'):
                 if d.get('target') != got:
@@ -250,13 +369,20 @@ def evaluate(cases):
                 f.append(dict(kind='model', key=f'model:{key}:{"float32" if c["dtype"] == "float32" else "f64"}',
                               detail=dict(pixel=i, got=float(g[i]), model=float(model[i]), nbad=int(len(bad)), tol=tol)))
         tags = dict(kind=c['kind'], dtype=c['dtype'], layout=c.get('layout', 'C'),
-                    size=('small' if max(c['shape']) <= 8 else 'medium' if max(c['shape']) <= 32 else 'large'),
-                    square=c['shape'][0] == c['shape'][1])
+                    size=('small' if max(c['shape'] + [0]) <= 8 else 'medium' if max(c['shape']) <= 32 else 'large'),
+                    square=len(set(c['shape'])) == 1)
         if c['kind'] == 'haar':
             tags.update(pe=c['pe'], inline=c.get('inline', False))
         elif c['kind'] == 'daub':
             tags.update(code=c['code'], inline=c.get('inline', False),
                         margin=('>=ncoeffs-2 (reconstruction asserted)' if c.pop('_margin', False) else '<ncoeffs-2 (model only)'))
+        elif c['kind'] == 'mem':
+            tags.update(name=c['name'], inline=c.get('inline', False),
+                        parity=''.join('o' if n % 2 else 'e' for n in c['shape']))
+        elif c['kind'] == 'centeri':
+            b = c['border']
+            tags.update(border=('negative' if b < 0 else 'zero' if b == 0 else 'small' if b <= 64 else
+                                'large' if b < 2 ** 40 else 'out-of-range'), ndim=len(c['shape']))
         else:
             tags.update(name=c['name'], code=c.get('code'))
         res.append(dict(findings=f, nontrivial=nontrivial, sig=json.dumps(c, sort_keys=True), tags=tags))
@@ -342,10 +468,60 @@ def cases(rng, tier):
                      data=_values(rng, n, dtype), data2=_values(rng, n, dtype), a=float(rng.randint(-4, 4)),
                      b=float(rng.randint(-4, 4)), code=rng.choice(CODES), pe=rng.random() < 0.5, layout=layout)
         out.append(c)
+    # memory-level cases: odd and even sides, eleven layouts, the four wrappers, inline on/off (Model/C17Mem.lean)
+    for i in range(dict(quick=700, thorough=15000, search=3000)[tier]):
+        def side():
+            u = rng.random()
+            return (rng.choice([1, 3, 3, 5, 5, 7, 9, 11, 13]) if u < 0.45 else
+                    rng.choice([2, 2, 4, 4, 6, 8, 10, 12, 16]) if u < 0.9 else rng.randint(1, 20))
+        shape = [side(), side()]
+        dtype = _dtype(rng)
+        out.append(dict(kind='mem', dtype=dtype, shape=shape, name=rng.choice(['haar', 'ihaar', 'daubechies', 'idaubechies']),
+                        data=_values(rng, shape[0] * shape[1], dtype), layout=rng.choice(MEM_LAYOUTS),
+                        inline=rng.random() < 0.5, pe=rng.random() < 0.5, code=rng.choice(CODES)))
+    # `_wavelet_center_compute` / wavelet_center / wavelet_decenter for every integer border
+    for i in range(dict(quick=400, thorough=6000, search=1000)[tier]):
+        nd = rng.choice([1, 2, 2, 2, 3])
+        shape = [(rng.randint(1, 12) if rng.random() < 0.8 else rng.randint(1, 70)) for _ in range(nd)]
+        if rng.random() < 0.03:
+            shape[rng.randrange(nd)] = 0
+        u = rng.random()
+        if u < 0.15:
+            border = -rng.choice([1, 2, 5, 100, 2 ** 41, 2 ** 62])
+        elif u < 0.5:
+            border = rng.randint(0, 24)
+        elif u < 0.8:
+            border = 2 ** rng.randint(3, 39) + rng.choice([-1, 0, 1])
+        elif u < 0.9:
+            border = rng.choice([2 ** 40 - 1, 2 ** 40 - 2, rng.randint(2 ** 20, 2 ** 40 - 1)])
+        else:
+            border = rng.choice([2 ** 40, 2 ** 40 + 1, 2 ** 63, 10 ** 30])
+        dtype = _dtype(rng)
+        n = int(np.prod(shape))
+        out.append(dict(kind='centeri', dtype=dtype, shape=shape, data=_values(rng, n, dtype), border=border,
+                        cval=float(rng.choice([0, 0, 1, -3])), layout='C'))
     return out
 
 
 def shrink(case):
+    if case['kind'] == 'centeri':
+        if case['border'] not in (0, 1, -1):
+            yield dict(case, border=case['border'] // 2)
+        return
+    if case['kind'] == 'mem':
+        sh = case['shape']
+        A0 = np.array(case['data'], np.float64).reshape(sh)
+        for ax in range(2):
+            if sh[ax] > 1:
+                A2 = A0[:-1] if ax == 0 else A0[:, :-1]
+                yield dict(case, shape=list(A2.shape), data=[float(x) for x in A2.ravel()])
+        if case.get('layout', 'C') != 'C':
+            yield dict(case, layout='C')
+        if case['dtype'] != 'float64':
+            yield dict(case, dtype='float64')
+        if case.get('code', 'D2') != 'D2' and case['name'] in ('daubechies', 'idaubechies'):
+            yield dict(case, code=CODES[CODES.index(case['code']) - 1])
+        return
     shape = case['shape']
     A = np.array(case['data'], np.float64).reshape(shape)
     B = np.array(case['data2'], np.float64).reshape(shape) if 'data2' in case else None
